@@ -84,7 +84,7 @@ fn regimes(prop: &str, weighted: bool) -> Vec<&'static str> {
         ("C17", _) => vec!["uniform", "offset1e15", "huge1e150", "near-constant", "const"],
         ("C16", _) => vec!["const", "const-b", "uniform"],
         (_, true) => vec!["uniform", "offset1e9", "tiny", "big", "near-constant", "const", "ties", "near-equal-w", "equal-w"],
-        _ => vec!["uniform", "offset1e9", "both-offset", "tiny", "big", "collinear", "anticollinear", "near-constant", "const", "ties"],
+        _ => vec!["uniform", "offset1e9", "both-offset", "tiny", "big", "collinear", "anticollinear", "near-constant", "const", "ties", "weak-corr"],
     }
 }
 
@@ -93,6 +93,8 @@ fn gen(regime: &str, weighted: bool, i: usize, rng: &mut Xoshiro256PlusPlus) -> 
     let mut u = || rng.random::<f64>();
     let a = match regime {
         "uniform" | "collinear" | "anticollinear" | "near-equal-w" | "equal-w" => u() * 100.0 - 50.0,
+        // a design in which x is exactly uncorrelated with x^2 after every second pair: +-v_j in turn
+        "weak-corr" => (if i % 2 == 0 { 1.0 } else { -1.0 }) * (((i / 2) % 7) as f64 + 1.0) * 0.75,
         "offset1e9" | "both-offset" => 1.0e9 + u() + u() + u(),
         "offset1e15" => 1.0e15 + u() * 4.0,
         "tiny" => -(1.0 - u()).ln() * 1.0e-20,
@@ -119,6 +121,8 @@ fn gen(regime: &str, weighted: bool, i: usize, rng: &mut Xoshiro256PlusPlus) -> 
     } else {
         match regime {
             "collinear" => 3.0 * a - 7.0 + 0.0 * i as f64,
+            // ... so that the correlation of x with y = x^2 + x * 2^-24 is about 1e-7: small, not zero
+            "weak-corr" => a * a + a * 2f64.powi(-24),
             "anticollinear" => -0.5 * a + 2.0,
             "both-offset" => -3.0e7 + u() * 10.0,
             "const-b" => 0.7,
@@ -142,6 +146,7 @@ fn record_type<T: PairT>(out: &mut impl Write, prop: &str, n: usize, rng: &mut X
         // object 1 is a pure add stream observed after 0, 1, 2, 3, 4 and then more and more pairs
         writeln!(out, "{}", obs_event(1, &objs[0])).unwrap();
         let mut count = 0usize;
+        let mut c0 = 0usize;
         let mut steps = 0usize;
         while count < n {
             steps += 1;
@@ -153,7 +158,8 @@ fn record_type<T: PairT>(out: &mut impl Write, prop: &str, n: usize, rng: &mut X
             }
             let ok = std::panic::catch_unwind(std::panic::AssertUnwindSafe(|| {
                 if r < 35 {
-                    let p = gen(regime, weighted, count, rng);
+                    let p = gen(regime, weighted, c0, rng);
+                    c0 += 1;
                     objs[0].add(p.0, p.1);
                     count += 1;
                     writeln!(out, "{}", json!({"op": "add", "id": 1, "a": dy(p.0), "b": dy(p.1)})).unwrap();
